@@ -88,7 +88,7 @@ def main():
                 if n and NAME_RE.match(n) and n not in names:
                     names.append(n)
         # the case conversions are abstract in the model: also try the reference keywords and their spellings
-        extra = ['Self', 'self', 'type', 'Type', 'crate', 'async', 'final', 'try', 'union', 'fn', 'r#type', 'camelCase', 'PascalCase', 'SCREAMING', '_lead', 'a1']
+        extra = ['type', 'snake_case', 'Self', 'PascalCase', 'externalID', 'SCREAMING', 'self', 'Type', 'crate', 'async', 'final', 'try', 'union', 'fn', 'camelCase', '_lead', 'a1']
         tried = 0
         hit = False
         for site in sites:
